@@ -612,6 +612,12 @@ class ParsedObject:
         self._hash = result
         return result
 
+    def __getstate__(self):
+        # The hash is not saved: strings hash differently in another process.
+        state = dict(self.__dict__)
+        state['_hash'] = None
+        return state
+
     def _asdict(self):
         return {k: getattr(self, k) for k in self._fields}
 
